@@ -1,5 +1,232 @@
-//! C12 — not built yet.
-#![allow(unused)]
+//! C12 — broadcast arithmetic follows NumPy semantics: case generation for the Coq correspondence
+//! (all 48 operator impls: {+,-,*,/} x {Matrix.Matrix, Matrix.Vector, Vector.Matrix} x 4 ownership
+//! forms) and the failure-search oracle (the NumPy rule, in a few lines, against the implementation).
 use crate::util::*;
-pub fn gen(_tier: &str, _seed: u64, _outdir: &str) { eprintln!("C12: gen not implemented"); std::process::exit(3); }
-pub fn oracle(_tier: &str, _seed: u64) -> (u64, Vec<Finding>) { eprintln!("C12: oracle not implemented"); std::process::exit(3); }
+use compute::linalg::{Matrix, Vector};
+
+const OPS: [&str; 4] = ["add", "sub", "mul", "div"];
+const KINDS: [&str; 3] = ["MM", "MV", "VM"];
+
+fn apply(op: usize, x: f64, y: f64) -> f64 { match op { 0 => x + y, 1 => x - y, 2 => x * y, _ => x / y } }
+
+/// the four ownership forms of one operator: (owned, owned), (owned, &), (&, owned), (&, &)
+macro_rules! forms {
+    ($a:expr, $b:expr, $form:expr, $op:tt) => {
+        match $form { 0 => $a.clone() $op $b.clone(), 1 => $a.clone() $op &$b, 2 => &$a $op $b.clone(), _ => &$a $op &$b }
+    };
+}
+macro_rules! ops {
+    ($a:expr, $b:expr, $form:expr, $opi:expr) => {
+        match $opi { 0 => forms!($a, $b, $form, +), 1 => forms!($a, $b, $form, -), 2 => forms!($a, $b, $form, *), _ => forms!($a, $b, $form, /) }
+    };
+}
+
+fn mat_out(m: &Matrix) -> Vec<f64> {
+    let mut v = vec![m.nrows as f64, m.ncols as f64];
+    v.extend_from_slice(&m.data);
+    v
+}
+
+/// a matrix operand: positive shapes through `Matrix::new`, the 0x0 sentinel through `Matrix::empty()`
+fn mk(d: &[f64], r: usize, c: usize) -> Matrix {
+    if r == 0 && c == 0 && d.is_empty() { Matrix::empty() } else { Matrix::new(d.to_vec(), r as i32, c as i32) }
+}
+
+/// run one of the 48 impls of the implementation; a Vector operand is given by its data (shape 1 x len)
+fn run(op: usize, kind: usize, form: usize, s1: (usize, usize), a: &[f64], s2: (usize, usize), b: &[f64]) -> Result<Vec<f64>, String> {
+    catch(|| {
+        let m = match kind {
+            0 => { let x = mk(a, s1.0, s1.1); let y = mk(b, s2.0, s2.1); ops!(x, y, form, op) }
+            1 => { let x = mk(a, s1.0, s1.1); let y = Vector::new(b.to_vec()); ops!(x, y, form, op) }
+            _ => { let x = Vector::new(a.to_vec()); let y = mk(b, s2.0, s2.1); ops!(x, y, form, op) }
+        };
+        mat_out(&m)
+    })
+}
+
+/// the NumPy rule: shape = element-wise max, entry = left[i or 0][j or 0] o right[i or 0][j or 0];
+/// a dimension that differs with neither side 1 is incompatible
+fn numpy(op: usize, s1: (usize, usize), a: &[f64], s2: (usize, usize), b: &[f64]) -> Option<(usize, usize, Vec<f64>)> {
+    let dim = |x: usize, y: usize| if x == y || y == 1 { Some(x) } else if x == 1 { Some(y) } else { None };
+    let (r, c) = (dim(s1.0, s2.0)?, dim(s1.1, s2.1)?);
+    let at = |d: &[f64], s: (usize, usize), i: usize, j: usize| d[(if s.0 == 1 { 0 } else { i }) * s.1 + if s.1 == 1 { 0 } else { j }];
+    let mut out = Vec::with_capacity(r * c);
+    for i in 0..r { for j in 0..c { out.push(apply(op, at(a, s1, i, j), at(b, s2, i, j))); } }
+    Some((r, c, out))
+}
+
+fn shape_kind(s: (usize, usize)) -> &'static str {
+    match (s.0 == 1, s.1 == 1) { (true, true) => "scalar", (true, false) => "row", (false, true) => "col", _ => "full" }
+}
+/// which of the shape classes the pair is in (from the shapes alone, not from the implementation)
+fn leaf(s1: (usize, usize), s2: (usize, usize)) -> String {
+    let ok = |x: usize, y: usize| x == y || x == 1 || y == 1;
+    if s1.0 * s1.1 == 0 || s2.0 * s2.1 == 0 { "empty-operand".into() }
+    else if s1 == s2 { "equal".into() }
+    else if ok(s1.0, s2.0) && ok(s1.1, s2.1) { format!("{}-{}", shape_kind(s1), shape_kind(s2)) }
+    else { "incompatible".into() }
+}
+
+/// distinct-valued entries: a permutation of 1..=n, scaled and shifted (no two equal, none zero),
+/// so that a transposed, swapped or mis-indexed operand changes the result
+fn distinct(r: &mut Rng, n: usize, scale: f64, shift: f64) -> Vec<f64> {
+    let mut p: Vec<usize> = (1..=n).collect();
+    for i in (1..n).rev() { let j = r.below(i as u64 + 1) as usize; p.swap(i, j); }
+    p.into_iter().map(|k| scale * k as f64 + shift).collect()
+}
+const SPECIALS: [f64; 10] = [0.0, -0.0, f64::INFINITY, f64::NEG_INFINITY, f64::NAN, 5e-324, -2.2250738585072014e-308, 1.7976931348623157e308, 1.0, -3.5];
+fn with_specials(r: &mut Rng, n: usize) -> Vec<f64> {
+    (0..n).map(|_| if r.coin(0.5) { *r.pick(&SPECIALS) } else { r.uniform(-8.0, 8.0) }).collect()
+}
+
+fn push(cs: &mut Cases, stream: &str, op: usize, kind: usize, form: usize, s1: (usize, usize), a: &[f64], s2: (usize, usize), b: &[f64]) {
+    let res = run(op, kind, form, s1, a, s2, b);
+    let lf = leaf(s1, s2);
+    let nontrivial = s1 != s2 && lf != "incompatible" && lf != "empty-operand" && res.is_ok();
+    cs.push(app("CBc", vec![Tm::Nat(op as u64), Tm::Nat(kind as u64), Tm::Nat(form as u64),
+                            Tm::Nat(s1.0 as u64), Tm::Nat(s1.1 as u64), fl(a), Tm::Nat(s2.0 as u64), Tm::Nat(s2.1 as u64), fl(b), outcome_list(&res)]),
+            &format!("{}/{}/{}/{}", stream, KINDS[kind], lf, if res.is_ok() { "value" } else { "panic" }), nontrivial);
+}
+
+/// shapes of a random pair for the "larger shapes" stream: mostly compatible, every class reached
+fn random_pair(r: &mut Rng, maxd: u64) -> ((usize, usize), (usize, usize)) {
+    let d = |r: &mut Rng| 2 + r.below(maxd - 1) as usize;
+    let (p, q, p2, q2) = (d(r), d(r), d(r), d(r));
+    match r.below(12) {
+        0 => ((p, q), (p, q)), 1 => ((1, q), (p, q)), 2 => ((p, 1), (p, q)), 3 => ((p, q), (1, q)), 4 => ((p, q), (p, 1)),
+        5 => ((p, 1), (1, q)), 6 => ((1, q), (p, 1)), 7 => ((1, 1), (p, q)), 8 => ((p, q), (1, 1)),
+        9 => ((1, q), (1, 1)), 10 => ((p, 1), (p2, 1)), _ => ((p, q), (p2, q2)),
+    }
+}
+
+struct Job { stream: &'static str, op: usize, kind: usize, form: usize, s1: (usize, usize), a: Vec<f64>, s2: (usize, usize), b: Vec<f64> }
+fn job(v: &mut Vec<Job>, stream: &'static str, op: usize, kind: usize, form: usize, s1: (usize, usize), a: &[f64], s2: (usize, usize), b: &[f64]) {
+    v.push(Job { stream, op, kind, form, s1, a: a.to_vec(), s2, b: b.to_vec() });
+}
+
+pub fn gen(tier: &str, seed: u64, outdir: &str) {
+    let mut r = Rng::new(seed);
+    let mut cs = Cases::new("C12");
+    // cases are collected first and the (large) random-shape cases are spread evenly over the shards
+    let mut small: Vec<Job> = vec![]; let mut big: Vec<Job> = vec![];
+    let thorough = tier == "thorough";
+    // 1. Matrix o Matrix: all 1296 shape pairs (rows, cols in 1..=6) x 4 operators; quick: one ownership form per
+    //    case (rotating, so each form sees every class), thorough: all four
+    let mut rot = 0usize;
+    for r1 in 1..=6usize { for c1 in 1..=6usize { for r2 in 1..=6usize { for c2 in 1..=6usize {
+        let a = distinct(&mut r, r1 * c1, 2.0, 1.0);        // odd integers 3,5,7,...
+        let b = distinct(&mut r, r2 * c2, 0.5, 100.0);      // 100.5, 101, 101.5, ...
+        for op in 0..4 {
+            if thorough { for form in 0..4 { job(&mut small, "exhaustive", op, 0, form, (r1, c1), &a, (r2, c2), &b); } }
+            else { job(&mut small, "exhaustive", op, 0, rot % 4, (r1, c1), &a, (r2, c2), &b); rot += 1; }
+        }
+    }}}}
+    // 2. Matrix o Vector and Vector o Matrix: vector length 1..=6 x all 36 matrix shapes x 4 operators
+    for n in 1..=6usize { for rm in 1..=6usize { for cm in 1..=6usize {
+        let v = distinct(&mut r, n, 2.0, 1.0);
+        let m = distinct(&mut r, rm * cm, 0.5, 100.0);
+        for op in 0..4 {
+            for kind in 1..=2usize {
+                let (s1, a, s2, b) = if kind == 1 { ((rm, cm), &m, (1, n), &v) } else { ((1, n), &v, (rm, cm), &m) };
+                if thorough { for form in 0..4 { job(&mut small, "exhaustive", op, kind, form, s1, a, s2, b); } }
+                else { job(&mut small, "exhaustive", op, kind, rot % 4, s1, a, s2, b); rot += 1; }
+            }
+        }
+    }}}
+    // 3. random larger shapes up to 40x40 (real entries; a quarter with special values: signed zeros, inf, NaN, subnormals)
+    let nbig = if thorough { 1500 } else { 40 };
+    for it in 0..nbig {
+        let (mut s1, mut s2) = random_pair(&mut r, 40);
+        let kind = (it % 3) as usize;
+        if kind == 1 { s2 = (1, s2.1); } else if kind == 2 { s1 = (1, s1.1); }
+        let (a, b) = if it % 4 == 3 { (with_specials(&mut r, s1.0 * s1.1), with_specials(&mut r, s2.0 * s2.1)) }
+                     else { (distinct(&mut r, s1.0 * s1.1, 0.37, -3.0), distinct(&mut r, s2.0 * s2.1, -1.3, 0.7)) };
+        job(&mut big, "random", (it / 3 % 4) as usize, kind, r.below(4) as usize, s1, &a, s2, &b);
+    }
+    // 3b. special values on small shapes, every operator
+    let nspec = if thorough { 4000 } else { 200 };
+    for it in 0..nspec {
+        let (mut s1, mut s2) = random_pair(&mut r, 4);
+        let kind = (it % 3) as usize;
+        if kind == 1 { s2 = (1, s2.1); } else if kind == 2 { s1 = (1, s1.1); }
+        let (a, b) = (with_specials(&mut r, s1.0 * s1.1), with_specials(&mut r, s2.0 * s2.1));
+        job(&mut small, "special-values", (it / 3 % 4) as usize, kind, r.below(4) as usize, s1, &a, s2, &b);
+    }
+    // 4. malformed stream: the empty Vector (its promotion to a 1x0 matrix panics) and the 0x0 `Matrix::empty()`
+    for op in 0..4 { for form in 0..4 {
+        for (rm, cm) in [(1usize, 1usize), (1, 3), (3, 1), (2, 3)] {
+            let m = distinct(&mut r, rm * cm, 1.0, 0.0);
+            job(&mut small, "malformed", op, 1, form, (rm, cm), &m, (1, 0), &[]);
+            job(&mut small, "malformed", op, 2, form, (1, 0), &[], (rm, cm), &m);
+            job(&mut small, "malformed", op, 0, form, (rm, cm), &m, (0, 0), &[]);
+            job(&mut small, "malformed", op, 0, form, (0, 0), &[], (rm, cm), &m);
+        }
+        job(&mut small, "malformed", op, 0, form, (0, 0), &[], (0, 0), &[]);
+        job(&mut small, "malformed", op, 1, form, (0, 0), &[], (1, 0), &[]);
+    }}
+    let step = (small.len() / big.len().max(1)).max(1);
+    let mut bigs = big.into_iter();
+    for (k, j) in small.into_iter().enumerate() {
+        push(&mut cs, j.stream, j.op, j.kind, j.form, j.s1, &j.a, j.s2, &j.b);
+        if k % step == 0 { if let Some(j) = bigs.next() { push(&mut cs, j.stream, j.op, j.kind, j.form, j.s1, &j.a, j.s2, &j.b); } }
+    }
+    for j in bigs { push(&mut cs, j.stream, j.op, j.kind, j.form, j.s1, &j.a, j.s2, &j.b); }
+    cs.write(outdir, 700,
+             "all 1296 shape pairs (rows, cols in 1..=6) x {+,-,*,/} for Matrix o Matrix, and vector length 1..=6 x all 36 matrix shapes x 4 operators for Matrix o Vector and Vector o Matrix, with distinct-valued entries (quick: one ownership form per case, rotating over the four; thorough: all four forms = all 48 impls on every pair); random larger shapes up to 40x40; special values (signed zeros, inf, NaN, subnormals); a malformed stream (empty Vector, 0x0 Matrix::empty()); non-trivial = a pair that broadcasts: shapes differ, compatible, a value is returned; distinct by hash of the case term");
+}
+
+// ---------------------------------------------------------------------------------------------
+// failure-search oracle: the property's statement (the NumPy rule) against the implementation only
+fn same(x: f64, y: f64) -> bool { x.to_bits() == y.to_bits() || (x.is_nan() && y.is_nan()) }
+
+fn judge(out: &mut Vec<Finding>, op: usize, kind: usize, form: usize, s1: (usize, usize), a: &[f64], s2: (usize, usize), b: &[f64]) {
+    let got = run(op, kind, form, s1, a, s2, b);
+    let want = numpy(op, s1, a, s2, b);
+    let lf = leaf(s1, s2);
+    let input = format!("op={} kind={} form={} left_shape={}x{} left={} right_shape={}x{} right={}", OPS[op], KINDS[kind], form, s1.0, s1.1, json_floats(a), s2.0, s2.1, json_floats(b));
+    let key = |what: &str| format!("{}:{}:{}:{}", what, KINDS[kind], OPS[op], lf);
+    match (&want, &got) {
+        (None, Ok(v)) => out.push(Finding { class: key("incompatible-accepted"), what: format!("shapes {:?} and {:?} are incompatible (a dimension differs and neither side is 1) but a {}x{} value was returned; must panic", s1, s2, v[0], v[1]), input }),
+        (Some(_), Err(e)) => out.push(Finding { class: key("compatible-panics"), what: format!("shapes {:?} and {:?} are compatible but the operation panicked: {}", s1, s2, e), input }),
+        (Some((r, c, w)), Ok(v)) => {
+            if v[0] != *r as f64 || v[1] != *c as f64 || v.len() != 2 + r * c {
+                out.push(Finding { class: key("wrong-shape"), what: format!("result shape {}x{} ({} entries), NumPy rule gives {}x{}", v[0], v[1], v.len() - 2, r, c), input });
+            } else if let Some(k) = (0..w.len()).find(|&k| !same(v[2 + k], w[k])) {
+                out.push(Finding { class: key("wrong-entry"), what: format!("entry ({},{}) is {:e}, the rule left[i or 0][j or 0] {} right[i or 0][j or 0] gives {:e}", k / c, k % c, v[2 + k], OPS[op], w[k]), input });
+            }
+        }
+        (None, Err(_)) => {}
+    }
+}
+
+pub fn oracle(tier: &str, seed: u64) -> (u64, Vec<Finding>) {
+    let mut r = Rng::new(seed ^ 0xC12);
+    let mut out = vec![]; let mut tried = 0u64;
+    // exhaustive part (cheap on the implementation, so the same in both tiers): all 1296 pairs x 4 ops x 4 forms,
+    // all vector lengths x matrix shapes x 4 ops x 2 kinds x 4 forms
+    for r1 in 1..=6usize { for c1 in 1..=6usize { for r2 in 1..=6usize { for c2 in 1..=6usize {
+        let a = distinct(&mut r, r1 * c1, 2.0, 1.0); let b = distinct(&mut r, r2 * c2, 0.5, 100.0);
+        for op in 0..4 { for form in 0..4 { judge(&mut out, op, 0, form, (r1, c1), &a, (r2, c2), &b); tried += 1; } }
+    }}}}
+    for n in 1..=6usize { for rm in 1..=6usize { for cm in 1..=6usize {
+        let v = distinct(&mut r, n, 2.0, 1.0); let m = distinct(&mut r, rm * cm, 0.5, 100.0);
+        for op in 0..4 { for form in 0..4 {
+            judge(&mut out, op, 1, form, (rm, cm), &m, (1, n), &v);
+            judge(&mut out, op, 2, form, (1, n), &v, (rm, cm), &m);
+            tried += 2;
+        }}
+    }}}
+    // random larger shapes up to 40x40, all three operand kinds, with and without special values
+    let iters = if tier == "thorough" { 40000 } else { 4000 };
+    for it in 0..iters {
+        let (mut s1, mut s2) = random_pair(&mut r, if it % 5 == 0 { 40 } else { 9 });
+        let kind = r.below(3) as usize;
+        if kind == 1 { s2 = (1, s2.1); } else if kind == 2 { s1 = (1, s1.1); }
+        let (a, b) = if it % 4 == 3 { (with_specials(&mut r, s1.0 * s1.1), with_specials(&mut r, s2.0 * s2.1)) }
+                     else { (distinct(&mut r, s1.0 * s1.1, 0.37, -3.0), distinct(&mut r, s2.0 * s2.1, -1.3, 0.7)) };
+        judge(&mut out, r.below(4) as usize, kind, r.below(4) as usize, s1, &a, s2, &b);
+        tried += 1;
+        if out.len() > 40 { break; }
+    }
+    (tried, out)
+}
